@@ -687,7 +687,7 @@ def gen_cases(rng, tier):
     # 5k. hand edits of the generated sub-graph between runs: after a run one body copy is given another value on a
     #     broadcast input and run by hand, then its collectors; then the loop runs again with UNCHANGED inputs
     #     (must be the table of its own inputs, not a cache hit on the edited one), then with other lengths
-    for i in range(60 if quick else 600):
+    for i in range(75 if quick else 750):
         body = rng.choice(["B4", "B3", "MB"])
         inputs = BODIES[body]["inputs"]
         roles = [r for r in _splits(inputs) if "b" in r]
@@ -702,9 +702,11 @@ def gen_cases(rng, tier):
                         rng.choice(["for_node", "cls"]), False, lens_seq)
         case["runs"][1]["set"] = {}
         n_rows = _n_rows(iter_on, zip_on, l0)
-        case["runs"][0]["edit"] = {"body": rng.randrange(n_rows), "input": rng.choice(bc), "value": "EDIT"}
+        case["runs"][0]["edit"] = {"body": rng.randrange(n_rows), "input": rng.choice(bc), "value": "EDIT",
+                                   "mode": ("run", "assign", "remove")[i % 3]}
         if rng.random() < 0.3:
-            case["runs"][1]["edit"] = {"body": 0, "input": rng.choice(bc), "value": "EDIT2"}
+            case["runs"][1]["edit"] = {"body": 0, "input": rng.choice(bc), "value": "EDIT2",
+                                       "mode": rng.choice(["run", "assign", "remove"])}
         yield case
 
     # 5b. body nodes on REAL executors (threads, processes): the completion order is whatever it is
@@ -915,6 +917,12 @@ def corpus():
                "init": {"a": ["1", "2"], "b": ["10", "20"], "c": "kg"},
                "runs": [{"set": {}, "how": "call", "edit": {"body": 2, "input": "c", "value": "lb"}},
                         {"set": {}, "how": "call"}, {"set": {"a": ["3"], "c": "t"}, "how": "call"}]}
+        for mode in ("assign", "remove"):
+            yield {"kind": "for", "body": "B4", "iter": ["a", "b"], "zip": [], "df": form_df, "colmap": None,
+                   "use_cache": True, "entry": "for_node", "executor": False,
+                   "init": {"a": ["1", "2"], "b": ["10", "20"], "c": "kg"},
+                   "runs": [{"set": {}, "how": "call", "edit": {"body": 2, "input": "c", "value": "lb", "mode": mode}},
+                            {"set": {}, "how": "call"}, {"set": {"a": ["3"], "c": "t"}, "how": "call"}]}
     # past failure (seeded C16-10): 32-bit label checksum, freq4[9] / k_59[10] shared a get-item node
     yield {"kind": "for", "body": "BK", "iter": [], "zip": ["freq4", "k_59"], "df": True, "colmap": None,
            "use_cache": True, "entry": "for_node", "executor": False,
@@ -1254,19 +1262,43 @@ def _run_for(case):
                 # the generated sub-graph is edited BY HAND: one body copy gets another value on a broadcast input and
                 # is run by hand, then the collectors downstream of it; the loop's outputs now hold the edited row
                 blabel = f"body_{ed['body']}"
+                mode = ed.get("mode", "run")
                 if blabel in f.children and ed["input"] in f.children[blabel].inputs.labels:
                     try:
-                        f.children[blabel].executor = None
-                        f.children[blabel].run(**{ed["input"]: ed["value"]})
-                        if case["df"]:
-                            f.children[f"row_collector_{ed['body']}"].run()
-                            f.children["dataframe"].run()
+                        if mode == "run":
+                            f.children[blabel].executor = None
+                            f.children[blabel].run(**{ed["input"]: ed["value"]})
+                            if case["df"]:
+                                f.children[f"row_collector_{ed['body']}"].run()
+                                f.children["dataframe"].run()
+                            else:
+                                for o in spec["outputs"]:
+                                    f.children["column_collector_" + (case["colmap"] or {}).get(o, o)].run()
+                        elif mode == "assign":
+                            # NO child is run (a hand run of a child drops the records of the composites above it by
+                            # itself): the body copy's free input is assigned, and what a hand run would have left in
+                            # the collectors' outputs is assigned too — only the loop's internal cache key (children,
+                            # wiring, free child inputs) can notice
+                            f.children[blabel].inputs[ed["input"]].value = ed["value"]
+                            if case["df"]:
+                                tab = f.children["dataframe"].outputs.df.value.copy()
+                                tab.iat[min(ed["body"], len(tab) - 1), len(tab.columns) - 1] = ("edited", ed["value"])
+                                f.children["dataframe"].outputs.df.value = tab
+                            else:
+                                o = spec["outputs"][-1]
+                                col = f.children["column_collector_" + (case["colmap"] or {}).get(o, o)]
+                                lst = list(col.outputs.list.value)
+                                lst[min(ed["body"], len(lst) - 1)] = ("edited", ed["value"])
+                                col.outputs.list.value = lst
                         else:
-                            for o in spec["outputs"]:
-                                f.children["column_collector_" + (case["colmap"] or {}).get(o, o)].run()
+                            # a child of the generated sub-graph is REMOVED by hand (no run either): the number of
+                            # children after the re-run must again be what the lengths dictate
+                            victim = (f"row_collector_{ed['body']}" if case["df"] else blabel)
+                            f.remove_child(victim)
                         edited = True
                     except Exception:  # noqa: BLE001
                         edited = False
+                stats["edit:" + mode] = stats.get("edit:" + mode, 0) + (1 if edited else 0)
             stats["edit:" + str(edited)] = stats.get("edit:" + str(edited), 0) + (1 if ed else 0)
             runs_out.append({"edited": edited, "res": res, "outs": struct, "children": children,
                              "n_children": n_children,
